@@ -25,8 +25,8 @@ EXHAUSTIVE = {
     "thorough": "all 10^6 all-digit SEDOL bases; all 10^8 all-digit CUSIP bases; all 676 two-letter ISIN prefixes x one 10^4 block",
 }
 MIN_COUNTERS = {
-    "quick": {"sedol_digit_bases": 10**6, "cusip_digit_bases": 10**6, "isin_prefixes_unknown": 600, "padded_ids": 50000},
-    "thorough": {"sedol_digit_bases": 10**6, "cusip_digit_bases": 10**8, "isin_prefixes_unknown": 600, "padded_ids": 50000},
+    "quick": {"sedol_digit_bases": 10**6, "cusip_digit_bases": 10**6, "isin_prefixes_unknown": 600, "padded_ids": 50000, "malformed_calls_interleaved": 1500},
+    "thorough": {"sedol_digit_bases": 10**6, "cusip_digit_bases": 10**8, "isin_prefixes_unknown": 600, "padded_ids": 50000, "malformed_calls_interleaved": 1500},
 }
 CHECKCHARS = "0123456789ABCDEFGHIJKLMNOPQRSTUVWXYZ"
 # one extra character that validators built on regexes or int()/strip() tend to swallow
@@ -39,6 +39,29 @@ def shards(tier):
 
 def timeout(tier):
     return 300 if tier == "quick" else 2400
+
+
+def lookalikes(d):
+    """Characters that are not the ASCII digit d but that int(), str.isdigit() or unicodedata take for it."""
+    if not d.isdigit() or not d.isascii():
+        return ""
+    n = int(d)
+    return "".join(chr(b + n) for b in (0x0660, 0x06F0, 0x0966, 0xFF10, 0x1D7CE, 0x1D7D8)) + "⁰¹²³⁴⁵⁶⁷⁸⁹"[n] + "⓪①②③④⑤⑥⑦⑧⑨"[n]
+
+
+MALFORMED = [" 8467010", "0846 010", "08467.10", "0846701-", "0\n467010", "é8467010", "08é67010", "0846701", "084670100", "", "08467\x0010", "08_67010"]
+
+
+def disturb(u, rng):
+    """Malformed arguments handed to every function first (each may raise - not judged): nothing they leave behind may change a later answer."""
+    for fn in (u.cusip_checksum, u.sedol_checksum, u.isin_checksum, u.validate_cusip, u.validate_isin, u.cusip2isin, u.sedol2isin):
+        bad = rng.choice(MALFORMED)
+        if fn in (u.isin_checksum, u.validate_isin):
+            bad = "US" + bad
+        try:
+            fn(bad)
+        except Exception:  # noqa
+            pass
 
 
 def _cls(base):
@@ -84,7 +107,7 @@ class Mon:
                           {"kind": "cusip", "base": base})
         if full:
             ctx.count("cusip_full")
-            for c in CHECKCHARS:
+            for c in CHECKCHARS + lookalikes(want):
                 if c == want:
                     continue
                 ctx.ev()
@@ -150,7 +173,7 @@ class Mon:
                 if not good:
                     ctx.violation(f"sedol2isin/wrong/{_cls(base)}", f"sedol2isin({base + want!r}, {nation!r}) -> {isin!r}",
                                   {"kind": "sedol", "base": base})
-            for c in CHECKCHARS:
+            for c in CHECKCHARS + lookalikes(want):
                 if c == want:
                     continue
                 ctx.ev()
@@ -184,6 +207,8 @@ class Mon:
             if ok is not True:
                 ctx.violation("isin/valid-rejected", f"validate_isin({base + want!r}) -> {ok!r}", {"kind": "isin", "base": base})
         chars = CHECKCHARS if (full or not known) else want + CHECKCHARS[(int(want) + 3) % 10]
+        if known and full:
+            chars = chars + lookalikes(want)  # other characters that int() / isdigit() take for the same digit
         for c in chars:
             if known and c == want:
                 continue
@@ -260,6 +285,9 @@ def run_shard(ctx):
     # A. SEDOL: all 10^6 all-digit bases, contiguous block per shard
     lo, hi = 10**6 * sh // n, 10**6 * (sh + 1) // n
     for i in range(lo, hi):
+        if i % 997 == 0:
+            disturb(m.u, rng)
+            ctx.count("malformed_calls_interleaved")
         m.sedol("%06d" % i, full=(i % 211 == 0))
     ctx.count("sedol_digit_bases", hi - lo)
     ctx.distinct_enum(hi - lo)
@@ -274,6 +302,9 @@ def run_shard(ctx):
         hi = block * 10**6 + 10**6 * (sh + 1) // n
     step_full = 9973 if thorough else 499
     for i in range(lo, hi):
+        if i % 997 == 0:
+            disturb(m.u, rng)
+            ctx.count("malformed_calls_interleaved")
         m.cusip("%08d" % i, full=(i % step_full == 0))
     ctx.count("cusip_digit_bases", hi - lo)
     ctx.distinct_enum(hi - lo)
@@ -314,6 +345,9 @@ def run_shard(ctx):
             base = "".join(rng.choice("0123456789*@#") for _ in range(8))
         else:
             base = "".join(rng.choice(ref.ALNUM) for _ in range(8))
+        if j % 101 == 0:
+            disturb(m.u, rng)
+            ctx.count("malformed_calls_interleaved")
         m.cusip(base, full=(j % 40 == 0))
         ctx.distinct(("cusip", base))
         if j % 3 == 0:
@@ -330,6 +364,8 @@ def run_shard(ctx):
 def replay(ctx, case):
     ref.selftest()
     m = Mon(ctx)
+    for _ in range(3):
+        disturb(m.u, ctx.rng)
     kind = case["kind"]
     if kind == "cusip":
         m.cusip(case["base"], full=True)
